@@ -391,3 +391,10 @@ Proof.
   assert (Hf : In (OLog k e) (filter is_log (s_trace s1))) by (apply filter_In; split; [exact Hin|reflexivity]).
   rewrite Hz in Hf. exact Hf.
 Qed.
+
+(* every log site passes the key of the flag in whose scope the problem was found; the bad-variation site: *)
+Lemma bad_variation_names_the_flag o f i r st :
+  o_logger o = true -> znth_opt (f_vars f) i = None ->
+  get_variation o f i r st =
+  (Done (err_detail KMalformed), mkst (s_cache st) (s_status st) (OLog (f_key f) (EBadVariation i) :: s_trace st)).
+Proof. intros Hl Hv. unfold get_variation. rewrite Hv. unfold bind, log. rewrite Hl. reflexivity. Qed.
